@@ -38,12 +38,14 @@ def public_props(cls):
 def deep(real):
     """the graph as a user can see it: for every object its public properties (links, vertices, v1, v2,
     universes, uid, laws, applies_to, the rule attributes …) and its public instance attributes (user
-    attributes), with the contents of containers.  Private attributes (names starting with an
-    underscore: internal lists already visible through the properties, memos, counters) are NOT
-    compared — a rewrite of the internals is not a change of the graph."""
+    attributes), with the contents of containers, and the SET of the names of all its instance
+    attributes ("the same set of attributes": a scratch attribute left behind, or an attribute that
+    disappeared, is a change — the renderers print dir(vertex)).  The VALUES of private attributes
+    (names starting with an underscore: internal lists already visible through the properties,
+    memos, counters) are not compared — what a memo holds is not part of the graph."""
     out = []
     for o in list(real.V) + list(real.L) + list(real.W):
-        d = {}
+        d = {"names": tuple(sorted(vars(o)))}
         for k, v in vars(o).items():
             if not k.startswith("_"):
                 d["attr:" + k] = freeze(v)
